@@ -195,10 +195,19 @@ class Driver:
     """Batch interface to the compiled Lean model driver (line protocol)."""
 
     def __init__(self):
-        if not os.path.exists(CYDRV):
-            raise Infra("cydrv not built")
+        self._wait()
+
+    @staticmethod
+    def _wait(limit=600):
+        # another check's `lake build` may be relinking the driver right now: wait for it instead of failing
+        t0 = time.time()
+        while not os.path.exists(CYDRV):
+            if time.time() - t0 > limit:
+                raise Infra("cydrv not built")
+            time.sleep(2)
 
     def batch(self, lines, timeout=1200):
+        self._wait()
         data = "\n".join(lines) + "\n"
         p = subprocess.run([CYDRV], input=data, stdout=subprocess.PIPE, stderr=subprocess.PIPE, text=True,
                            timeout=timeout, env=_clean_env())
